@@ -32,6 +32,8 @@ type Pkg struct {
 
 type Case struct {
 	Pkgs []Pkg `json:"pkgs"`
+	// the last package is fetched as a byte-identical copy of the first (own address, same files)
+	Clone bool `json:"clone,omitempty"`
 }
 
 func addrOf(i int) string { return fmt.Sprintf("https://example.com/pkg%d.tgz", i) }
@@ -56,6 +58,9 @@ func (f fetcher) FetchSourcePackage(ctx context.Context, st string, u *url.URL, 
 			}
 		}
 		vars := map[string]string{"T": dir, "A": f.arena, "SIB": sib, "TB": filepath.Base(dir)}
+		if f.c.Clone && i == len(f.c.Pkgs)-1 {
+			i, p = 0, f.c.Pkgs[0]
+		}
 		tr := append(fsx.Tree{{Path: "main.tf", Kind: "file", Content: fmt.Sprintf("IN:pkg%d", i), Mode: 0644, Sec: 1500000000}}, p.Tree...)
 		if p.Rules != nil {
 			tr = append(tr, fsx.Node{Path: ".terraformignore", Kind: "file", Content: *p.Rules, Mode: 0644, Sec: 1500000000})
@@ -340,6 +345,10 @@ var combos = []struct {
 	{[]string{"chain1", "chain2", "secret.txt"}, []string{"chain2"}},
 	{[]string{"self", "zz-leak"}, []string{"self"}},
 	{[]string{"ln-canary", "prod.tfvars"}, []string{"/ln-*", "*.tfvars"}},
+	// re-included by the last negation of the file, excluded again by a later rule
+	{nil, []string{"*.txt", "!sub/keep.txt", "keep.*"}},
+	{[]string{"secret.txt"}, []string{"*.txt", "!secret.txt", "!sub/keep.txt", "secret*"}},
+	{[]string{"logs/a.log"}, []string{"!logs/a.log", "*.log"}},
 }
 
 func nodeByPath(p string) fsx.Node {
@@ -388,6 +397,13 @@ func TestPropSanitised(t *testing.T) {
 				p.Deps = rapid.SliceOfN(rapid.IntRange(0, n-1), 0, 2).Draw(t, "deps")
 			}
 			c.Pkgs = append(c.Pkgs, p)
+		}
+		if n > 1 && rapid.IntRange(0, 3).Draw(t, "clone?") == 0 {
+			// the last package is a byte-identical copy of the first under its own
+			// address, and the first depends on it: both are fetched, one directory is kept
+			c.Pkgs[n-1].Tree, c.Pkgs[n-1].Rules, c.Pkgs[n-1].Deps = c.Pkgs[0].Tree, c.Pkgs[0].Rules, nil
+			c.Pkgs[0].Deps = append(c.Pkgs[0].Deps, n-1)
+			c.Clone = true
 		}
 		return c
 	})
